@@ -9,7 +9,7 @@ from vp.gen import xml as gx
 # weights: compositions the repository's tests never have (reverse axes, following/preceding, siblings) are common
 _AXES = (['child'] * 30 + ['descendant'] * 8 + ['descendant-or-self'] * 4 + ['parent'] * 6 + ['ancestor'] * 5 +
          ['ancestor-or-self'] * 3 + ['following'] * 7 + ['preceding'] * 7 + ['following-sibling'] * 8 +
-         ['preceding-sibling'] * 8 + ['self'] * 4 + ['attribute'] * 7 + ['namespace'] * 3)
+         ['preceding-sibling'] * 8 + ['self'] * 4 + ['attribute'] * 7 + ['namespace'] * 5)
 _axis = st.sampled_from(_AXES)
 
 _elem_name = st.tuples(st.just('name'), st.sampled_from([None, None, None, None, 'p', 'q', 'r']), st.sampled_from(gx.ELEM_LOCALS)).map(list)
@@ -156,9 +156,39 @@ def _path(draw, max_steps, depth=0):
     return ['path', ab, [draw(_step(depth, loose)) for _ in range(n)]]
 
 
+_NS_TESTS = [['any'], ['any'], ['node'], ['name', None, 'xml'], ['name', None, 'xml'], ['name', None, 'p'], ['name', None, 'r']]
+
+
+@st.composite
+def ns_axis_path(draw):
+    """namespace axis: alone, behind //, followed by further steps, in unions with attributes, counted in predicates"""
+    ns_step = ['/', 'namespace', draw(st.sampled_from(_NS_TESTS)), [['num', draw(st.integers(1, 2))]] if draw(st.integers(0, 5)) == 0 else [], 0]
+    k = draw(st.integers(0, 9))
+    if k < 2:
+        return ['path', draw(st.sampled_from([0, 0, 2])), [ns_step]]
+    if k < 4:
+        return ['path', 2, [['/', 'child', draw(st.sampled_from([['any'], ['node'], ['name', None, 'a']])), [], 1], ns_step]]
+    if k < 6:
+        tail = draw(st.sampled_from([[['/', 'parent', ['node'], [], 1]], [['/', 'parent', ['any'], [], 0], ['/', 'attribute', ['any'], [], 1]],
+                                     [['/', 'parent', ['node'], [], 1], ['/', 'namespace', ['name', None, 'xml'], [], 0]],
+                                     [['/', 'ancestor', ['any'], [], 0]], [['/', 'parent', ['node'], [], 1], ['/', 'child', ['node'], [], 1]]]))
+        return ['path', draw(st.sampled_from([0, 2, 2])), [ns_step] + tail]
+    if k < 8:
+        att = ['path', draw(st.sampled_from([0, 2, 2])), [['/', 'attribute', draw(st.sampled_from([['any'], ['node'], ['name', None, 'x']])), [], 1]]]
+        nsp = ['path', draw(st.sampled_from([0, 2, 2])), [ns_step]]
+        u = ['union', [nsp, att] if draw(st.booleans()) else [att, nsp]]
+        return u if draw(st.booleans()) else ['fpath', u, [], draw(st.sampled_from([[], [['/', 'parent', ['node'], [], 1]]]))]
+    pred = draw(st.sampled_from([['exists', ['path', 0, [ns_step]]], ['count', ['path', 0, [['/', 'namespace', ['any'], [], 0]]], '=', draw(st.integers(1, 5))],
+                                 ['count', ['path', 0, [['/', 'namespace', ['name', None, 'xml'], [], 0]]], '=', 1],
+                                 ['count', ['union', [['path', 0, [['/', 'namespace', ['any'], [], 0]]], ['path', 0, [['/', 'attribute', ['any'], [], 1]]]]], '>', 2]]))
+    return ['path', 2, [['/', 'child', ['any'], [pred], 1]]]
+
+
 @st.composite
 def path_asts(draw, max_steps=4):
-    k = draw(st.integers(0, 27))
+    k = draw(st.integers(0, 29))
+    if k >= 28:
+        return draw(ns_axis_path())
     if k < 15:
         return draw(_path(max_steps))
     if k < 18:
